@@ -22,7 +22,8 @@ Lemma compile_grid_starts_zero sched il out n ts cs :
 Proof.
   intros H HI. destruct il as [|i0 il].
   - cbn in H. inversion H; subst. destruct HI.
-  - destruct (compile_decompose _ _ _ _ ltac:(congruence) H) as (sil & chs & outs & _ & _ & C & ->).
+  - assert (Hne : i0 :: il <> []) by discriminate.
+    destruct (compile_decompose _ _ _ _ Hne H) as (sil & chs & outs & _ & _ & C & ->).
     apply in_combine_r in HI. apply In_nth_error in HI. destruct HI as [k Hk].
     exact (all_start_zero _ _ _ _ _ C Hk).
 Qed.
@@ -108,8 +109,7 @@ Proof.
 Qed.
 
 Lemma ex_compiles :
-  concatenate_pulses true ex_chs =
-  Some [([0; 1 + 0; 3; 1 + 3; 2 + 3], [3; 0; 5; 7]);
-        ([0; 1 + 0; 2 + 0; (1 # 2) + 2; 1 + 2; 1 + 2 + (1 # 2); 1 + 2 + (1 # 2) + (1 # 2)],
-         [0; 4; 2; 6; 0; 0; 0])].
-Proof. vm_compute. reflexivity. Qed.
+  exists oA oB, concatenate_pulses true ex_chs = Some [oA; oB] /\
+                eval_step (fst oA) (snd oA) (7 # 2) = 5 /\ eval_step (fst oA) (snd oA) 2 = 0 /\
+                length (fst oA) = 5%nat /\ length (fst oB) = 25%nat.
+Proof. do 2 eexists. split; [vm_compute; reflexivity|]. vm_compute. repeat split; reflexivity. Qed.
